@@ -238,9 +238,10 @@ add(
     "multi-fidelity searchers, synchronous Hyperband, DEHB, PBT and regularised evolution; finite spaces are driven to exhaustion. "
     "Oracle: harness membership / type predicate for every suggestion, harness re-implementation of the mid-point imputation for "
     "the initial list, match-string uniqueness for no-repeat searchers, None only at exhaustion, grid == itertools.product once. "
-    "3e4 model-free + 640 GP histories quick, 5e5 + 1e4 thorough.",
+    "GP histories include NaN metric values, all searcher_data policies and scripts ending early; a dedicated sub-check exhausts tiny finite "
+    "spaces with GP searchers. 3e4 model-free + 640 + 1600 GP histories quick, 5e5 + 1e4 + 3e4 thorough.",
     "Exact ties of the nearest-value rule end the initial-order comparison; continuous domains narrower than the 7-digit match string are "
-    "not generated; one listed known finding (bounded random retries) is excluded and counted.",
+    "not generated; two listed known findings (bounded random retries; ended trials without a finite observation are forgotten by the GP searchers) are excluded and counted.",
     "property-based testing (Hypothesis choice tape, stateful protocol driver): validity predicates + reference imputation model",
     "DESIGN.md 6/C06",
 )
